@@ -29,6 +29,8 @@ const int cv = 3; const int[0,5] cbi = 2; const int cia[3] = { 1, 2, 3 }; const 
 const double cd = 2.5; const S cs1 = { 1, 2 }; typedef int[0,5] small_t; small_t tv; small_t tva[3]; int[0,5] bia[3]; meta int mi;
 int m2[2][3]; const int cm2[2][3] = { { 1, 2, 3 }, { 4, 5, 6 } }; S sarr[2]; const S csarr[2] = { { 1, 2 }, { 3, 4 } };
 void setint(int &r) { r = 1; } void setbint(int[0,5] &r) { r = 1; } void setdbl(double &r) { r = 1.0; }
+int as1[A_t]; int as2[A_t]; int bs1[B_t]; bool bas[A_t]; typedef int[-32768,32767] word_t; word_t w1; word_t wa[3]; typedef struct { word_t f; int k; } SW; SW sw1;
+typedef int[0,32767] pos_t; pos_t p1; int[-32768,32767] ew; int[-32768,32767] ewa[3]; typedef scalar[3] C_t; int ia3s[C_t];
 int fi() { return 1; }
 double fd() { return 1.5; }
 bool fb() { return true; }
@@ -37,6 +39,7 @@ S fs_() { return s1; }
 DECL = DECL.replace("S fs_() { return s1; }\n", "")
 POOL = ["1", "0", "i", "i + j", "bi", "bj", "N", "-i", "true", "b", "b && c", "i < j", "1.5", "d", "d * e", "PI", "x", "y", "hx", "x - y",
         "x - 3", "sa1", "sa2", "sb1", "s1", "s2", "t1", "u1", "s1.f", "ia", "ib", "ic", "ba", "da", "ia[1]", "ch", "ch2", "bc", "uc",
+        "as1", "as2", "bs1", "bas", "w1", "wa", "sw1", "p1", "ew", "ewa", "ia3s", "wa[1]", "as1[sa1]",
         "cv", "cbi", "cia", "cba", "cd", "cs1", "tv", "tva", "bia", "mi", "m2", "cm2", "sarr", "csarr", "cia[1]", "cs1.f", "m2[1]", "cm2[1]",
         "fi()", "fd()", "fb()", "(b ? i : j)", "(b ? d : e)", "i++", "forall (q : int[0,1]) ia[q] > 0", "sum (q : int[0,1]) ia[q]"]
 OPS = ["+", "*", "==", "!=", "&&", "||", "&", "|", "^", "<?", ">?", "and", "or"]
@@ -46,6 +49,8 @@ REF_TYPES = {
     "int": ("int", ""), "bint": ("int[0,5]", ""), "bint2": ("int[0,6]", ""), "bool": ("bool", ""), "double": ("double", ""),
     "scalarA": ("A_t", ""), "scalarB": ("B_t", ""), "S": ("S", ""), "S2": ("S2", ""), "S3": ("S3", ""),
     "int3": ("int", "[3]"), "int4": ("int", "[4]"), "bool3": ("bool", "[3]"), "scalarA3": ("A_t", "[3]"),
+    "intByA": ("int", "[A_t]"), "intByB": ("int", "[B_t]"), "word": ("word_t", ""), "word3": ("word_t", "[3]"), "explicitrange": ("int[-32768,32767]", ""),
+    "pos": ("pos_t", ""), "structW": ("SW", ""),
 }
 TEMPL_REF_TYPES = dict(REF_TYPES, clock=("clock", ""), chan=("chan", ""), bchan=("broadcast chan", ""), uchan=("urgent chan", ""),
                        hclock=("hybrid clock", ""), chan3=("chan", "[3]"))
@@ -106,7 +111,7 @@ def run(rep, tier, seed):
         elif ok1 and t1 != t2:
             rep.violation("C14:type-asymmetric:%s" % what, "%r has type kind %s but %r has %s" % (texts[2 * k], t1, texts[2 * k + 1], t2), single)
     # ---- inline-if as an l-value: assignment target and argument for a reference parameter
-    lv_int = ["i", "j", "cv", "ia[0]", "cia[0]", "s1.f", "cs1.f", "mi", "m2[1][0]", "cm2[1][0]", "sarr[1].k", "csarr[1].k"]
+    lv_int = ["w1", "wa[0]", "sw1.f", "ew", "i", "j", "cv", "ia[0]", "cia[0]", "s1.f", "cs1.f", "mi", "m2[1][0]", "cm2[1][0]", "sarr[1].k", "csarr[1].k"]
     lv_bint = ["bi", "cbi", "tv", "bia[1]", "tva[0]"]
     lv_dbl = ["d", "e", "cd", "da[0]", "u1.f"]
     ltexts, lpairs = [], []
